@@ -177,7 +177,7 @@ def gate():
     sys.modules.setdefault('ser_replay_driver', sys.modules[me]); me = 'ser_replay_driver'
     names = [('os', 'system'), ('builtins', 'eval'), ('builtins', 'dict'), ('builtins', 'print'), ('subprocess', 'Popen'), (me, 'trap'), (me, 'TrapClass'), (me, 'trap_instance'), (me, 'Holder.fn'), (me, 'Holder.inst'),
              (me, 'Holder'), ('sys', 'modules'), ('os', 'path'), (me, 'Holder.Exc'), (me, 'ModLevel'), (me, 'MixedError'), (me, 'PickyError'), ('builtins', 'ValueError'), ('builtins', 'KeyboardInterrupt'), (me, 'NoSuchThing'), ('no.such.module', 'Boom'),
-             ('json.tool', 'main'), ('antigravity', 'geohash'), ('this', 's'), (None, 'Whatever'), ('builtins', 'ValueError.mro'), ('builtins', 'type')]
+             ('json.tool', 'main'), ('antigravity', 'geohash'), ('this', 's'), (None, 'Whatever'), (me, 'NoSuchOuter.InnerError'), (None, 'Billing.NotFound'), ('builtins', 'ValueError.mro'), ('builtins', 'type')]
     fails = []; n = 0
     for mod, typ in names:
         for nesting in ('root', 'cause', 'context'):
@@ -187,7 +187,12 @@ def gate():
                 payload = leaf if nesting == 'root' else {'exc_type': 'ValueError', 'exc_message': ['outer'], 'exc_module': 'builtins', 'exc_cause': leaf if nesting == 'cause' else None,
                                                          'exc_context': leaf if nesting == 'context' else None, 'exc_suppress_context': False}
                 pr = []; res = None; err = None
-                try: res = TaskiqResult.model_validate({'is_err': True, 'return_value': None, 'execution_time': 0.0, 'error': payload}).error
+                data = {'is_err': True, 'return_value': None, 'execution_time': 0.0, 'error': payload}
+                try:
+                    if len(args) == 2:          # the way result backends load a stored result: taskiq.compat.model_validate(TaskiqResult, data)
+                        from taskiq.compat import model_validate as _mv
+                        res = _mv(TaskiqResult, data).error
+                    else: res = TaskiqResult.model_validate(data).error
                 except BaseException as ex: err = ex
                 if TRAPPED: pr.append(f"C20: loading ({mod}, {typ}, args={args}) at {nesting} level CALLED a non-exception: {TRAPPED[:2]}")
                 new = {m for m in set(sys.modules) - before if not m.startswith(('pydantic', 'taskiq'))}
@@ -200,7 +205,7 @@ def gate():
                     else:
                         leaf_res = res if nesting == 'root' else (res.__cause__ if nesting == 'cause' else res.__context__)
                         resolves_to_exc = (mod, typ) in ((me, 'Holder.Exc'), (me, 'ModLevel'), (me, 'MixedError'), (me, 'PickyError'), ('builtins', 'ValueError'), ('builtins', 'KeyboardInterrupt'))
-                        unresolvable = mod is None or (mod, typ) in ((me, 'NoSuchThing'), ('no.such.module', 'Boom'), ('json.tool', 'main'), ('antigravity', 'geohash'), ('this', 's'))
+                        unresolvable = mod is None or (mod, typ) in ((me, 'NoSuchThing'), (me, 'NoSuchOuter.InnerError'), ('no.such.module', 'Boom'), ('json.tool', 'main'), ('antigravity', 'geohash'), ('this', 's'))
                         if unresolvable and isinstance(leaf_res, BaseException) and type(leaf_res).__name__ != typ: pr.append(f"C20: unresolvable type ({mod}, {typ}) did not yield a synthetic class of that name but {type(leaf_res).__name__}")
                 if pr: fails.append({'key': f"{mod}:{typ}@{nesting}", 'config': {'module': mod, 'type': typ, 'args': list(args), 'level': nesting}, 'failed_clauses': pr[:3]})
     return fails, n
